@@ -75,6 +75,9 @@ class MuxComp(ExplicitComponent):
         kwgs = dict(options)
         in_shape = np.asarray(options['val']).shape \
             if options['shape'] is None else options['shape']
+        if isinstance(in_shape, (int, np.integer)):
+            in_shape = (in_shape,)
+        in_shape = tuple(in_shape)
         in_size = shape_to_len(in_shape)
         out_shape = list(in_shape)
         out_shape.insert(options['axis'], vec_size)
@@ -87,8 +90,13 @@ class MuxComp(ExplicitComponent):
             raise ValueError('{3}: Cannot mux a {0}D inputs for {2} along axis greater '
                              'than {0} ({1})'.format(in_dimension, ax, name, self.msginfo))
 
+        out_val = options['val']
+        if np.ndim(out_val) > 0 and np.shape(out_val) == in_shape:
+            # val was given for one input: the muxed output holds vec_size copies of it
+            out_val = np.stack([np.asarray(out_val)] * vec_size, axis=ax)
+
         self.add_output(name=name,
-                        val=options['val'],
+                        val=out_val,
                         shape=out_shape,
                         units=options['units'],
                         desc=options['desc'])
